@@ -79,6 +79,8 @@ func Cite(arch gcnasm.Arch, f gcnasm.Format, name string) string {
 		c += " (CDNA3: same-named instruction, GCN3 semantics)"
 	}
 	switch {
+	case strings.HasPrefix(name, "ds_") && !strings.Contains(name, "2"):
+		c += " | GCN3 ISA 10.3.1 (LDS indexed): \"LDS_Addr = LDS_BASE + VGPR[ADDR] + {InstrOffset1,InstrOffset0}\"; 13: OFFSET0 = \"Unsigned byte offset added to the address supplied by the ADDR VGPR\""
 	case strings.HasPrefix(name, "v_add") || strings.HasPrefix(name, "v_sub"):
 		if strings.HasSuffix(name, "_u32") {
 			c += vccRule
@@ -152,7 +154,8 @@ func vopcHasRef(name string) bool {
 
 // Exec applies the instruction described by d to st (in place) and reports
 // which cells of the result are loose. If the instruction or one of its
-// operands is outside the reference, Ref is false and st is unchanged.
+// operands is outside the reference, Ref is false and st must be discarded
+// (it may be partially updated).
 func Exec(d *gcnasm.Desc, st *State) (out Outcome) {
 	name, ok, why := HasRef(d.Arch, d.Format, d.Opcode)
 	out.Name = name
@@ -161,19 +164,13 @@ func Exec(d *gcnasm.Desc, st *State) (out Outcome) {
 		return out
 	}
 	out.Cite = Cite(d.Arch, d.Format, name)
-	backup := st.Clone()
 	defer func() {
 		if r := recover(); r != nil {
 			nr, isNR := r.(noRef)
 			if !isNR {
 				panic(r)
 			}
-			// restore
-			st.SGPR, st.VCC, st.EXEC, st.SCC, st.M0, st.PC = backup.SGPR, backup.VCC, backup.EXEC, backup.SCC, backup.M0, backup.PC
-			copy(st.VGPR, backup.VGPR)
-			copy(st.LDS, backup.LDS)
-			st.Mem.W = backup.Mem.W
-			st.Mem.Log = nil
+			// the state may be partially updated: callers discard it
 			out = Outcome{Name: name, Why: nr.why}
 		}
 	}()
